@@ -503,7 +503,10 @@ fn pick(st: &mut State, me: usize) -> Option<usize> {
 }
 
 fn wait_for_token(mut st: MutexGuard<'static, State>, me: usize) {
-    let mut waited = 0u32;
+    // a stall is declared only when NOBODY has made any progress for 180 s of wall clock: a blocked thread may
+    // legitimately wait for as long as the others need
+    let mut idle = 0u32;
+    let mut seen = (st.steps, st.quiet_ctr, st.log.len());
     loop {
         if st.free || st.current == me {
             return;
@@ -517,9 +520,15 @@ fn wait_for_token(mut st: MutexGuard<'static, State>, me: usize) {
         };
         st = g;
         if t.timed_out() {
-            waited += 1;
-            if waited > 360 {
-                do_abort(&mut st, "stall: a parked thread did not get the token back within 180 s");
+            let now = (st.steps, st.quiet_ctr, st.log.len());
+            if now == seen {
+                idle += 1;
+            } else {
+                idle = 0;
+                seen = now;
+            }
+            if idle > 360 {
+                do_abort(&mut st, "stall: no thread has made a step for 180 s of wall clock");
                 return;
             }
         }
